@@ -222,4 +222,177 @@ theorem runInv_prologue (hs : H.Sound) {root : Node} {S S' : List (Key × VH)} {
     simp only [Option.map_some, hpp] at hs1
     exact ⟨w1, hw1, hs1, hsame1⟩
 
+theorem getLast?_append_singleton {α : Type} (l : List α) (x : α) : (l ++ [x]).getLast? = some x := by
+  simp
+
+/-- one call of the script keeps the invariant and does not reach a panic site -/
+theorem runInv_step (hs : H.Sound) {root : Node} {S S' : List (Key × VH)} (hS : KeysOK S) (hS' : KeysOK S')
+    {done todo : List (Step VH)} {s : Step VH} (hso : ScriptOK S S' (done ++ s :: todo))
+    (hps : PSOK H ps root S (done ++ s :: todo)) {w : Walker Node} {a : TW Node}
+    (h : RunInv H ps root S S' done (s :: todo) w a) :
+    ∃ w', w.stepM H ps s = .ok w' ∧
+      RunInv H ps root S S' (done ++ [s]) todo w' (a.step H (cfgOf H ps none) s) := by
+  have hlen := hso.len s (by simp)
+  obtain ⟨hpw, hpp⟩ := posOfPath_wf s.1 hlen
+  have hDp := pathsIn_of_psok H ps hps
+  obtain ⟨w1, hw1, hs1, hsame1⟩ := runInv_prologue H ps hs hso h
+  have hpar1 : w1.parentPage = none := hsame1.1.trans h.par
+  have hlast' : ∀ w' : Walker Node, w'.lastPosition = some (posOfPath s.1) →
+      (match (done ++ [s]).getLast? with
+       | none => w'.lastPosition = none
+       | some s0 => ∃ p, w'.lastPosition = some p ∧ p.path = s0.1) := by
+    intro w' hw'
+    rw [getLast?_append_singleton]
+    exact ⟨_, hw', hpp⟩
+  unfold Walker.stepM
+  cases hop : s.2 with
+  | none =>
+    -- `advance`
+    simp only
+    unfold Walker.advance
+    rw [hw1]
+    simp only
+    have hpid : ∃ pid, (posOfPath s.1).pageId = some pid := by
+      by_cases hd : 1 ≤ (posOfPath s.1).depth
+      · exact ⟨_, pageId_eq _ hpw hd⟩
+      · exact ⟨_, pageId_root _ (by omega)⟩
+    obtain ⟨pid, hpid⟩ := hpid
+    rw [hpid]
+    simp only
+    have hassert : w1.assertPageInScope pid = .ok () := by
+      unfold Walker.assertPageInScope
+      rw [hpar1]
+      cases pid <;> rfl
+    rw [hassert]
+    simp only
+    refine ⟨_, rfl, ?_⟩
+    have hstep : a.step H (cfgOf H ps none) s = a.compactUp H (cfgOf H ps none) (some s.1) := by
+      unfold TW.step; rw [hop]; rfl
+    refine ⟨?_, hpar1, ?_, hlast' _ rfl⟩
+    · rw [hstep]; exact sim_other_fields H ps hs1 w1.siblingStack w1.prevNode (some (posOfPath s.1))
+    · rcases h.tw with ⟨hidle, hdone⟩ | ⟨hinv, _⟩
+      · left
+        rw [idle_step_advance H _ a hidle s hop]
+        refine ⟨hidle, ?_⟩
+        intro s' hs'
+        rcases List.mem_append.mp hs' with h' | h'
+        · exact hdone s' h'
+        · rw [List.mem_singleton] at h'; rw [h', hop]; rfl
+      · right
+        exact ⟨invB_step H (Mat ps) hs hS hS' hso hDp hps.rep _ a hinv, by simp⟩
+  | some ops =>
+    -- `advance_and_replace`
+    simp only
+    unfold Walker.advanceAndReplace
+    rw [hw1]
+    simp only
+    have hops := hso.repl s (by simp) ops hop
+    -- what the state after the prologue provides
+    have hfacts : (∀ top rest, w1.stack = top :: rest → top.pageId <+: specPage s.1) ∧
+        (∀ Q, Q <+: specPage s.1 → (∀ top rest, w1.stack = top :: rest → top.pageId.length < Q.length) →
+          ∀ q, q ≠ [] → specPage q = Q →
+            (a.compactUp H (cfgOf H ps none) (some s.1)).store q = flatStore H ps root q) ∧
+        (a.compactUp H (cfgOf H ps none) (some s.1)).store s.1 = flatStore H ps root s.1 ∧
+        (s.1 = [] → w1.stack = []) := by
+      rcases h.tw with ⟨hidle, _⟩ | ⟨hinv, _⟩
+      · rw [tw_compactUp_idle H _ a _ hidle.pos] at hs1 ⊢
+        have hst : w1.stack = [] := hs1.stackE.mpr (by
+          have h0 : a.pos.length ≤ 0 := hidle.pos
+          exact Nat.le_trans h0 (Nat.zero_le _))
+        refine ⟨?_, ?_, by rw [hidle.store], fun _ => hst⟩
+        · intro top rest e; rw [hst] at e; cases e
+        · intro Q _ _ q _ _; rw [hidle.store]
+      · obtain ⟨hinv1, hcomp⟩ := invB_compact H (Mat ps) hs hS' hso hps.rep (cfgOf H ps none) a hinv
+        obtain ⟨p, w', r, hc, ht⟩ := hinv1.todoP s (List.mem_cons_self ..)
+        have hsb : sharedBits (a.compactUp H (cfgOf H ps none) (some s.1)).pos s.1 = p.length := by
+          rw [hc, ht]; exact sharedBits_leftOf p w' r
+        have hw'nil : w' = [] := by
+          rw [hsb, hc] at hcomp
+          have htop0 : (cfgOf H ps none).top = 0 := rfl
+          have hl : (p ++ false :: w').length = p.length + 1 + w'.length := by simp; omega
+          rw [htop0, hl] at hcomp
+          exact List.eq_nil_of_length_eq_zero (by omega)
+        subst hw'nil
+        have hleft : LeftOf (a.compactUp H (cfgOf H ps none) (some s.1)).pos s.1 := ⟨p, [], r, hc, ht⟩
+        refine ⟨?_, ?_, hinv1.right _ hleft, ?_⟩
+        · intro top rest e
+          rw [hs1.stackT top rest e, hc, ht]
+          have : specPage (p ++ [false]) = specPage (p ++ [true]) := by
+            have := specPage_sibPath (p ++ [true])
+            rw [sibPath_snoc] at this
+            simpa using this
+          rw [this]
+          exact specPage_mono _ _ ⟨r, by simp⟩
+        · intro Q hQ hQl q hq hqp
+          apply hinv1.right
+          obtain ⟨top, rest, hst, htop⟩ := sim_stack_cons H ps hs1 (by
+            rw [hpar1, hc]; simp [k0])
+          have hl := hQl top rest hst
+          rw [htop, hc] at hl
+          rw [hc]
+          rw [ht] at hQ
+          exact page_right_of p r q Q hQ hl hq hqp
+        · intro e
+          rw [e] at ht
+          have := congrArg List.length ht
+          simp at this
+    obtain ⟨hF1, hF2, hF3, hF4⟩ := hfacts
+    obtain ⟨a1, ha1⟩ : ∃ a1, a1 = a.compactUp H (cfgOf H ps none) (some s.1) := ⟨_, rfl⟩
+    rw [← ha1] at hs1 hF2 hF3
+    -- `build_stack`
+    have hs1' := sim_other_fields H ps hs1 w1.siblingStack w1.prevNode (some (posOfPath s.1))
+    have hbuild : ∃ w2, ({ w1 with lastPosition := some (posOfPath s.1) } : Walker Node).buildStack H ps (posOfPath s.1)
+          = .ok w2 ∧
+        Sim H ps w2 ({ a1 with pos := s.1 } : TW Node) ∧
+        w2.parentPage = none ∧ w2.lastPosition = some (posOfPath s.1) := by
+      by_cases hne : s.1 = []
+      · obtain ⟨w2, hw2, hs2, hsame2, _⟩ := sim_buildStack_root H ps hs1' (posOfPath s.1) hpw (by rw [hpp]; exact hne)
+          (hF4 hne) hpar1
+        refine ⟨w2, hw2, ?_, hsame2.1.trans hpar1, hsame2.2.1⟩
+        rw [hne]; exact hs2
+      · obtain ⟨w2, hw2, hs2, hsame2, _⟩ := sim_buildStack H ps hs1' (posOfPath s.1) hpw (by rw [hpp]; exact hne)
+          (by intro pp hp; rw [show ({ w1 with lastPosition := some (posOfPath s.1) } : Walker Node).parentPage
+                = w1.parentPage from rfl, hpar1] at hp; cases hp)
+          (by intro top rest e; rw [hpp]; exact hF1 top rest e)
+          (by
+            intro Q hQ hQl _
+            rw [hpp] at hQ
+            exact loadable_of_psok H ps hps s (by simp) hne Q hQ _ (hF2 Q hQ hQl))
+        rw [hpp] at hs2
+        exact ⟨w2, hw2, hs2, hsame2.1.trans hpar1, hsame2.2.1⟩
+    obtain ⟨w2, hw2, hs2, hpar2, hlast2⟩ := hbuild
+    rw [hw2]
+    simp only
+    -- `replace_terminal`
+    have hMat : Mat ps s.1 := by
+      by_cases hne : s.1 = []
+      · exact Or.inl hne
+      · exact (hDp s (by simp) s.1 (List.prefix_refl _) hne).1
+    obtain ⟨w3, hw3, hs3, hsame3, _⟩ := sim_replaceTerminal H ps hs hps.fresh hS' hs2
+      (by
+        show (s.1 = [] ∧ w2.parentPage = none) ∨ 6 * k0 w2.parentPage < s.1.length
+        by_cases hne : s.1 = []
+        · exact Or.inl ⟨hne, hpar2⟩
+        · right; rw [hpar2]; simp [k0]; exact List.length_pos_iff.mpr hne)
+      (by
+        show H.kind (a1.store s.1) ≠ .internal
+        rw [hF3]
+        exact terminal_not_internal H hs hS hps.rep s.1 hlen hMat (hso.term s (by simp)))
+    rw [hops]
+    have hw3' : w2.replaceTerminal H ps (sub S' s.1) = .ok w3 := hw3
+    rw [hw3']
+    refine ⟨w3, rfl, ?_⟩
+    have hstep : a.step H (cfgOf H ps none) s =
+        ({ a1 with pos := s.1 } : TW Node).replaceTerminal H (cfgOf H ps none) (sub S' s.1) := by
+      unfold TW.step; rw [hop]; simp only
+      unfold TW.advanceAndReplace; rw [hops, ha1]
+    refine ⟨?_, hsame3.1.trans hpar2, ?_, hlast' _ (hsame3.2.1.trans hlast2)⟩
+    · rw [hstep]
+      rw [hpar2] at hs3
+      exact hs3
+    · right
+      rcases h.tw with ⟨hidle, hdone⟩ | ⟨hinv, _⟩
+      · exact ⟨(idle_step_replace H (Mat ps) hs hS hS' hso hDp hps.rep _ a hidle hdone ops hop).2, by simp⟩
+      · exact ⟨invB_step H (Mat ps) hs hS hS' hso hDp hps.rep _ a hinv, by simp⟩
+
 end Nomt.Walker
